@@ -9,7 +9,7 @@ CLAIMED = {
    category="translation_validation",
    technique="property-based differential testing (rapid): typed query/graph generator; the emitted SQL text is executed by a PostgreSQL model (pgsim) and compared with an independent openCypher 9 reference evaluator (refcypher) at the exact determinacy the query fixes; stored-case replay of every finding",
    text="Differential execution: each generated read query (node/relationship/variable-length patterns in all directions, multi-pattern and multi-MATCH, OPTIONAL MATCH, WITH pipelines, WHERE boolean/comparison/string/null/kind/IN/pattern predicates, quantifiers, UNWIND, aggregation, DISTINCT, ORDER BY/SKIP/LIMIT, path and entity functions, parameters) is parsed and translated by DAWGS; the emitted SQL with the emitted parameters is executed on pgsim over the DAWGS schema and the rows are compared with refcypher's at the determinacy openCypher fixes (sequence / bag / bag modulo list order / row count - obtained from an exact observation channel of the reference under four tie-break orders) over random small graphs with self loops, parallel edges, multi-kind and kind-less nodes, missing and mixed-type properties. Translation errors, SQL run-time errors and reference run-time errors are 'rejected', which the property allows.",
-   note="Bounded by the generator fragment (no shortest-path execution, no writes, strings from [a-z0-9]*, graphs <= 6 nodes / 8 edges). PostgreSQL and openCypher are modelled, not run: pgsim and refcypher are calibrated against the repository's ~450 result-asserting integration cases (their package tests) and pgsim against the 373 golden statements. 20 open findings are excluded by named syntactic predicates and counted (about 10% of cases); three documented DAWGS dialect choices are kept out of the generator (leading OPTIONAL MATCH = MATCH, property + property = concatenation, stricter typing) and one is modelled in the reference (negated string predicate on a missing property).",
+   note="Bounded by the generator fragment (no shortest-path execution, no writes, strings from [a-z0-9]*, graphs <= 6 nodes / 8 edges). PostgreSQL and openCypher are modelled, not run: pgsim and refcypher are calibrated against the repository's ~450 result-asserting integration cases (their package tests) and pgsim against the 373 golden statements. the open findings are excluded by named predicates over the query (one of them, optional-match-duplicate-origin-rows, also evaluates the query prefix on the case's graph and applies only when two incoming rows really are equal) and counted (about 10% of cases); three documented DAWGS dialect choices are kept out of the generator (leading OPTIONAL MATCH = MATCH, property + property = concatenation, stricter typing) and one is modelled in the reference (negated string predicate on a missing property).",
    design="§4 C01, §7.5"),
  "C02": dict(
    category="translation_validation",
@@ -33,7 +33,7 @@ CLAIMED = {
    category="exploration",
    technique="property-based testing (rapid): inputs from grammar derivations, corpus mutations, typed queries and builder programs; metamorphic oracles (repeat, deep-clone differential, marker non-interference, concurrent vs sequential) plus an input-immutability invariant (address-level reflection snapshots); race detector in the thorough tier",
    text="ASTs from six sources (random Cypher.g4 derivations, corpus mutations incl. literal->$param with fresh and bound-variable names, typed generated queries (one in three from the lowering / fast-path shaped templates), every shipped query, builder programs through package query, cypher model constructors) x parameter maps (31 supported and 25 unsupported value kinds, names that do / do not occur) x kind-mapper knowledge. Each case is decided by: no panic; marker interleaving A,B,A (no value of one call appears in another call's result, results stable); 5 repeated Translate+Translated calls byte-identical with equal parameter maps and stable error text; translation of an independent deep clone gives the same result; FromCypher; 8 goroutines on the shared AST, caller's map and one kind mapper; address-level snapshots of the AST and the parameter map compared after every phase.",
-   note="Schedules are sampled (8 goroutines; -race in thorough only); totality is established only for explored shapes (10 panic/impurity roots found and repaired); 'within bounded time' is decided by the growth sub-check: 23 size-parameterised query families translated at n and 2n, allocation count (<= 16x) and, for allocation-free work, the clock ratio (> 64x with a floor of 250 ms) - an exponential translation is reported as growth; a hang elsewhere would surface as a timeout = inconclusive, not as a violation; a write into spare slice capacity of a caller's slice shows only under -race.",
+   note="Schedules are sampled (8 goroutines; -race in thorough only); totality is established only for explored shapes (10 panic/impurity roots found and repaired); 'within bounded time' is decided by the growth sub-check: 23 size-parameterised query families translated at n and 2n, allocation count (<= 16x) and, for allocation-free work, the clock ratio (> 64x with a floor of 250 ms) - an exponential translation is reported as growth; a translation that does not return within 60 s is reported by a watchdog as a violation with the query as replay file (scope sub-check: clause sequences that rebind, shadow and reorder variables); a write into spare slice capacity of a caller's slice shows only under -race.",
    design="§4 C05"),
  "C06": dict(
    category="exploration",
@@ -50,7 +50,7 @@ CLAIMED = {
  "C08": dict(
    category="exploration",
    technique="property-based testing / generated-input robustness (rapid): raw lexeme soup, corpus mutations, every corpus prefix (enumerated), grammar derivations; totality + result-shape oracle; allocation-growth measurement on size families; coverage-guided native fuzz target FuzzC08 (90 s) in the thorough tier",
-   text="Generated byte strings (random lexeme/rune/byte concatenations incl. invalid UTF-8, 1-3 token/byte mutations of corpus queries, every prefix of corpus queries, token-boundary prefixes followed by a dangling operator / sign / bracket / keyword, grammar derivations) are parsed under NewContext() and DefaultCypherContext(): no panic, never (nil,nil), blank input rejected, and a model returned with a nil error must be printable by the emitter and walkable. 'Bounded' is decided by a deterministic allocation-count growth exponent (n vs 4n) over 20 size-parameterised nesting/chain families, not by wall clock.",
+   text="Generated byte strings (random lexeme/rune/byte concatenations incl. invalid UTF-8, 1-3 token/byte mutations of corpus queries, every prefix of corpus queries, token-boundary prefixes followed by a dangling operator / sign / bracket / keyword, grammar derivations) are parsed under NewContext() and DefaultCypherContext(): no panic, never (nil,nil), blank input rejected, and a model returned with a nil error must be printable by the emitter and walkable. 'Bounded' is decided by a deterministic allocation-count growth exponent (n vs 4n) over 20 size-parameterised nesting/chain families, not by wall clock; a parse that does not return within 30 s is reported by a watchdog as a violation with the input as replay file.",
    note="Inputs up to a few KB (families up to 4000 repetitions in thorough); stack exhaustion at megabyte-deep nesting is outside the explored bound; 'not partially built' is read as 'printable and walkable'.",
    design="§4 C08"),
  "C09": dict(
@@ -81,12 +81,12 @@ CLAIMED = {
    category="exploration",
    technique="stateful property-based testing (rapid) against a map model; porcupine linearizability + race detector for the wrappers",
    text="Generated operation histories over every receiver/operand pairing of {bitmap, threadSafe, threadSafe(threadSafe)} x {32,64 bit} are compared with a map[T]struct{} model after every step (cardinality, slice, each, contains, operand unchanged, clones independent); concurrent histories on one wrapper are checked for per-key linearizability with porcupine and run under the race detector in both tiers. Sampling, not proof: right level because the state space (values x histories x schedules) is unbounded but failures are shallow and shrink well.",
-   note="A second generated family (large) describes sets by runs of up to 10000 members (container-type and batch-size boundaries: 511/512/513, 4095/4096/4097), overlapping operands in all wrappings and early-stopped iteration, with the same model comparison after every operation. Receiver and operand are distinct objects that do not wrap each other; schedules are sampled (GOMAXPROCS varied), not enumerated; the roaring library is inside the tested system.",
+   note="A second generated family (large) describes sets by runs of up to 10000 members (container-type and batch-size boundaries: 511/512/513, 4095/4096/4097), overlapping operands in all wrappings and early-stopped iteration, with the same model comparison after every operation. A burst sub-check lets 2-16 goroutines offer the same 200-3000 absent values to CheckedAdd at the same moment: every value is answered 'new' exactly once. Receiver and operand are distinct objects that do not wrap each other; schedules are sampled (GOMAXPROCS varied), not enumerated; the roaring library is inside the tested system.",
    design="§4 C13"),
  "C14": dict(
    category="exploration",
    technique="property-based testing (rapid) with a naive edge-list reference model, differential comparison of 5 builders + projections, round-trip oracles for segments and the BFS tree file, small-scope exhaustive enumeration",
-   text="Generated multigraphs and projection chains (arbitrary uint64 ids, self loops, parallel/antiparallel edges, isolated nodes) are built into the adjacency-map graph, CSR, fetched CSR, triplestore and its projections and compared with a naive edge-list model (node set, adjacency sets in 3 directions, early stop, Reach, BFS distances, Normalize bijection); TSBFS/TSDFS against recursive enumeration; segment and BFS-tree-file round trips. Thorough additionally enumerates all labelled graphs on <=3 nodes x deleted-node sets x <=1 deleted edge and all 65536 edge sets on 4 nodes.",
+   text="Generated multigraphs and projection chains (arbitrary uint64 ids, self loops, parallel/antiparallel edges, isolated nodes) are built into the adjacency-map graph, CSR, fetched CSR, triplestore and its projections and compared with a naive edge-list model (node set, adjacency sets in 3 directions, early stop, Reach, BFS distances, Normalize bijection); TSBFS/TSDFS against recursive enumeration; segment and BFS-tree-file round trips; the container's own AdjacentNodes is called and the adjacency re-read afterwards (a read must not change what later reads return). Thorough additionally enumerates all labelled graphs on <=3 nodes x deleted-node sets x <=1 deleted edge and all 65536 edge sets on 4 nodes.",
    note="No proof beyond 4 nodes; random part samples graphs up to 10 nodes/24 edges; TSBFS/TSDFS only inbound/outbound with bounded depth or acyclic input (callers' domain); base-triplestore DeleteEdge and DirectionBoth walks out of scope.",
    design="§4 C14"),
  "C15": dict(
@@ -105,7 +105,7 @@ CLAIMED = {
    category="exploration",
    technique="property-based testing (rapid) with reference-model oracle (sequential expansion / path enumeration), fault injection at the k-th driver call, schedule perturbation, testing/synctest bubbles for deterministic deadlock and leak detection, Go race detector in both tiers",
    text="Generated BufferedPipe schedules (writers x reader behaviour x close/cancel), BreadthFirst expansion plans with fault plans (driver error, visitor error, cancellation, memory limit at the k-th call; 1-8 workers), and stored graphs with traversal plans for the sequential helpers are run under the race detector inside synctest bubbles and decided against a sequential reference expansion: exactly-once multiset equality, returned error identity, termination and goroutine-leak freedom (durably blocked bubble = failure, no timeouts), path-tree size accounting.",
-   note="Goroutine interleavings are sampled, not enumerated; 'promptly' = returned and joined without further driver progress; sequential helpers run on the in-memory fakedb; AcyclicTraverseTerminals decided as 'every reachable sink, nothing unreachable'; node sets under skip/limit: drawn from the plan's set, at most limit, and of exactly the size filter+skip+limit fix when every reachable node has one way in; traversal.UniquePathSegmentFilter under 1-16 workers on fan-in graphs (each edge admitted at most once, exactly the considered edges on acyclic plans); the pattern driver with one worker against the same driver with N workers; after BreadthFirst returns, with the caller's context still live, no other goroutine of the bubble may sit in DAWGS code; node ids may agree in their low 32 bits; an enumerated pipe-bulk check puts one writer 65536-70000 values ahead of any reader.",
+   note="Goroutine interleavings are sampled, not enumerated; 'promptly' = returned and joined without further driver progress; sequential helpers run on the in-memory fakedb; AcyclicTraverseTerminals decided as 'every reachable sink, nothing unreachable'; node sets under skip/limit: drawn from the plan's set, at most limit, and of exactly the size filter+skip+limit fix when every reachable node has one way in; traversal.UniquePathSegmentFilter under 1-16 workers on fan-in graphs, each plan run ten times with several workers (each edge admitted at most once, exactly the considered edges on acyclic plans); the pattern driver with one worker against the same driver with N workers; after BreadthFirst returns, with the caller's context still live, no other goroutine of the bubble may sit in DAWGS code; node ids may agree in their low 32 bits; an enumerated pipe-bulk check puts one writer 65536-70000 values ahead of any reader.",
    design="§4 C17"),
  "C18": dict(
    category="exploration",
@@ -122,7 +122,7 @@ CLAIMED = {
  "C20": dict(
    category="fault_enumeration",
    technique="property-based fault enumeration: enumerated byte/truncation sweeps and rapid-generated structural mutations with shrinking and replay; oracles = fakedb mutation log, sandbox tree hash, graph isomorphism, portable tar-stream model; coverage-guided native fuzz target FuzzC20 (60 s) in the thorough tier",
-   text="Every byte position and every truncation length of small dumps, their tar and HPKE archives and key files (all codecs), plus enumerated fragment/frame operations, generated manifest edits (36 kinds incl. a whole entry taken from another graph, hostile paths), hostile tar streams (absolute/parent/volume/backslash names, links, devices, FIFOs, oversize/lying sizes, duplicates, PAX records) and wrong/malformed keys, each driven through Load, UnpackTar, UnpackEncryptedCollectionArchive, Unpack and Load(ArchiveReader) inside a hashed sandbox with a logging in-memory database: an error must come before any node/relationship write, nothing outside the output directory may change, owners of a destination leave no partial output, success is accepted only with the identical tree / an isomorphic graph, an encrypted archive opens only with the matching key.",
+   text="Every byte position and every truncation length of small dumps, their tar and HPKE archives and key files (all codecs), plus enumerated fragment/frame operations, generated manifest edits (36 kinds incl. a whole entry taken from another graph, hostile paths), hostile tar streams (absolute/parent/volume/backslash names, links, devices, FIFOs, oversize/lying sizes, duplicates, PAX records) and wrong/malformed keys, each driven through Load, UnpackTar, UnpackEncryptedCollectionArchive, Unpack and Load(ArchiveReader) inside a hashed sandbox with a logging in-memory database: an error must come before any node/relationship write, nothing outside the output directory may change, owners of a destination leave no partial output, success is accepted only with the identical tree / an isomorphic graph, an encrypted archive opens only with the matching key; a forge sub-check rewrites the manifest so that it agrees with an edited payload (sizes, hashes, counts recomputed) and accepts the load only when the forged dump is self-consistent.",
    note="quick: all positions of the smallest dump directory and of the private key file, strided tar/archive, sampled rest; thorough: all positions x 2 masks x all 12 fixtures across 8 shards. 'No partial output' asserted for Unpack and Load(ArchiveReader) only (the building blocks extract straight into the directory they are handed); unsigned manifest: an accepted mutation must give an identical result; effects observed on Linux with a portable POSIX+Windows name model; disk exhaustion (sparse expansion) not judged.",
    design="§4 C20"),
 }
